@@ -107,7 +107,9 @@ def true_wavefunction(rng, types, natom, unrestricted, single_ok=False):
     atnums = [rng.choice([1, 6, 8, 7]) for _ in range(natom)]
     xyz = np.array([[round(rng.uniform(-0.8, 0.8) + 2.3 * i, 6) for _ in range(3)] for i in range(natom)])
     shells = []
-    centers = sorted(rng.randrange(natom) for _ in types)
+    # atoms that carry basis functions: any non-empty subset (a bare nucleus or point charge in the middle of the list is valid)
+    allowed = sorted(rng.sample(range(natom), rng.randint(1, natom)))
+    centers = sorted(rng.choice(allowed) for _ in types)
     for c, t in zip(centers, types):
         nexp = rng.choice([2, 2, 3] if not single_ok else [1, 2, 3])
         exps = sorted((round(10 ** rng.uniform(-0.5, 0.9), 7) for _ in range(nexp)), reverse=True)
@@ -249,7 +251,7 @@ def vendor_case(task):
     from iodata.utils import LoadError, LoadWarning
     rng = random.Random(seed)
     types = [NAME_TYPE[n] for n in tnames]
-    natom = rng.randint(1, 2)
+    natom = rng.choice([1, 2, 2, 3, 3])
     ev = {"op": "Vendor", "vendor": "corrupt" if corrupt else vendor, "encoding": vendor, "types": sorted(set(tnames)), "fmt": fmt, "unit": unit,
           "unrestricted": unres, "norm_threshold": thr, "mo_digits": mo_digits or 0, "seed": seed, "out": "loaded", "same": True, "orthonormal": True, "irreps_ok": True, "warning": "none", "msg": ""}
     tmp = tempfile.mkdtemp(prefix="c05_")
